@@ -65,6 +65,17 @@ func (b sizeBytes) floorSectors() sizeSectors {
 	return sizeSectors(b / sectorSize)
 }
 
+// withRecord returns the size of a directory of this size after a record of the given size is added.
+// A directory record never crosses a sector border (ECMA-119 6.8.1.1): a record that does not fit
+// into the rest of the current sector starts the next one.
+func (b sizeBytes) withRecord(record sizeBytes) sizeBytes {
+	if rest := b % sectorSize; rest+record > sectorSize {
+		b += sectorSize - rest
+	}
+
+	return b + record
+}
+
 // sectors returns how many sectors will be occupied by this amount of bytes (ceil).
 func (b sizeBytes) sectors() sizeSectors {
 	sectors := b.floorSectors()
